@@ -228,7 +228,14 @@ theorem utimes_frame {fs fs' : FS} {cwd : Path} {s : Str} {a m : Time} {p : Path
     (h : utimes fs cwd s a m = some (fs', p)) :
     (∀ q, q ≠ p → fs' q = fs q) ∧ (fs' p).isSome = true := by
   unfold utimes at h
-  split at h; · simp at h
+  split at h
+  · split at h
+    · unfold utimesAt at h
+      split at h; · simp at h
+      simp only [Option.some.injEq, Prod.mk.injEq] at h
+      obtain ⟨rfl, rfl⟩ := h
+      exact ⟨fun q hq => set_other _ _ _ _ hq, by simp [FS.set]⟩
+    · simp at h
   split at h; · simp at h
   simp only [Option.some.injEq, Prod.mk.injEq] at h
   obtain ⟨rfl, rfl⟩ := h
